@@ -115,7 +115,7 @@ fn twist() -> impl Strategy<Value = Twist> {
         1 => Just(day_max()),
         1 => (1970i64..=2200).prop_map(|y| days_from_civil(y, 12, 31)),
         1 => (493i64..=549).prop_map(|q| days_from_civil(q * 4, 2, 29)),
-        1 => prop::sample::select(vec![(2000i64, 12u32, 31u32), (2000, 2, 29), (2100, 12, 31), (2100, 2, 28), (2100, 3, 1), (2200, 2, 28), (2200, 1, 1), (1999, 12, 31), (2001, 1, 1)]).prop_map(|(y, m, d)| days_from_civil(y, m, d)),
+        3 => prop::sample::select(vec![(2000i64, 12u32, 31u32), (2000, 12, 31), (2000, 12, 31), (2000, 2, 29), (2100, 12, 31), (2100, 2, 28), (2100, 3, 1), (2200, 2, 28), (2200, 1, 1), (1999, 12, 31), (2001, 1, 1)]).prop_map(|(y, m, d)| days_from_civil(y, m, d)),
     ];
     prop_oneof![
         1 => any::<u16>().prop_map(Twist::Permute),
